@@ -34,10 +34,9 @@ u64 _ZN3tbb6detail2d020machine_reverse_bitsImEET_S3_(u64 x) { return x; }   /* n
 u8* got[2]; int done[2];
 void vp_slot_result(u32 tid, u64 idx, u8* slot, u8* content) {
   got[tid] = slot; done[tid] = 1;
-  VP_ASSERT(content == 0 || 1, "");   /* (content may already have been written by nobody here: checked below) */
   VP_ASSERT(content == 0, "fresh bucket slot is not nullptr");
 }
-static int inside(u8* p, int i, u64 n) { u8* b = i == 0 ? (u8*)&SA[0] : i == 1 ? (u8*)&SB[0] : (u8*)&SC[0]; return p >= b && p < b + 8 * n && ((u64)(p - b) % 8) == 0; }
+static int inside(u8* p, int i, u64 n) { u8* b = i == 0 ? (u8*)&SA[0] : i == 1 ? (u8*)&SB[0] : (u8*)&SC[0]; u64 d = (u64)p - (u64)b; return d < 8 * n && d % 8 == 0; }
 
 int main(void) {
   vp_us_ctor(SP, 8);
@@ -50,7 +49,7 @@ int main(void) {
   u64 sa = vp_seg_index_of(IA), sb = vp_seg_index_of(IB);
   if (IA == IB) VP_ASSERT(got[0] == got[1], "the same bucket index gave two different slots (both racing segments in use)");
   else VP_ASSERT(got[0] != got[1], "two bucket indices share a slot");
-  if (sa == sb) VP_ASSERT(got[1] - got[0] == 8 * ((long)IB - (long)IA), "slots of one segment are not laid out by index");
+  if (sa == sb) VP_ASSERT((u64)got[1] - (u64)got[0] == (u64)(8 * ((long)IB - (long)IA)), "slots of one segment are not laid out by index");
   /* stability: a later (sequential) subscript gives the same addresses */
   VP_ASSERT((u8*)vp_us_slot_addr(SP, IA) == got[0] && (u8*)vp_us_slot_addr(SP, IB) == got[1], "slot address changed after the race");
   /* allocation balance and placement */
